@@ -391,14 +391,14 @@ def callees_of(fn, F, depth=3):
     return out
 
 
-def finding_key(fn, var, what, state, F, claims):
+def finding_key(fn, var, what, state, F, claims, bad_long=frozenset()):
     """the stable key of a failing case: <function>:<argument>:<class family>, or the key of the shared root cause"""
     fam = family(var["cls"])
     changed = any("changed" in w or "CHANGED" in w for w in what)
     accepted = any(w.startswith("accepted") for w in what)
     cs = callees_of(fn, F)
-    if fam == "name-empty" and not accepted and ("name" in claims.get(fn, {}).get(var["pos"] + 1, set()) or "cgi_check_strlen" in cs):
-        return "cgi_check_strlen:string:name-empty"      # the validator runs and lets the empty name through
+    if fam == "name-empty" and not accepted and "cgi_check_strlen" in cs and (fn, var["param"]) not in bad_long:
+        return "cgi_check_strlen:string:name-empty"      # over-long names are refused cleanly: the validator runs, and lets "" through
     if changed and not accepted and state == "bare" and fam != "name-empty":
         if "cgi_get_zcoorGC" in cs:
             return "cgi_get_zcoorGC:Z:container-created-before-validation"
@@ -583,7 +583,7 @@ def run(ck):
                 ("hdf5", "rich12", "modify", 0.12, False, False), ("hdf5", "bare", "modify", 0.2, False, False),
                 ("adf", "unstr", "read", 0.2, False, False), ("adf", "bare", "write", 0.3, False, False)]
     findings, observations, dyn = {}, {}, {"passes": [], "cases": 0, "sanitizer_reports": 0}
-    valid_ok, rejected = {}, {}
+    valid_ok, rejected, raw = {}, {}, []
     for (b, st, mode, frac, allc, onlyv) in plan:
         t0 = time.time()
         cases = select_cases(entries, rng, ck.tier, frac, allc, onlyv)
@@ -618,18 +618,21 @@ def run(ck):
                 rejected.setdefault((fn, var["pos"] + 1), set()).add(family(var["cls"]))
             w = judge(c, e, MODES[mode], var["must"])
             if w and var["must"]:
-                key = finding_key(fn, var, w, st, F, claims)
                 wit = {"level": "inv", "config": cfg, "backend": b, "state": st, "mode": mode, "entry": c["name"], "variant": c["v"], "desc": var["desc"],
                        "what": w, "observed": {k: c.get(k) for k in ("st", "msg", "view", "tree", "file", "out")}, "stderr": c.get("stderr", [])[:6],
                        "valid_variant_accepted_here": nontrivial,
                        "oracle": "an invalid argument => error status, non-empty message, read-API dump and file content unchanged, no sanitizer report",
                        "replay_hint": ".build/h/c12_drv inv <template %s/%s> <work> %d <entry index> <entry index + 1> %d %d" % (b, st, MODES[mode], c["v"], c["v"] + 1)}
-                if key in findings:
-                    findings[key].setdefault("also", [])
-                    if len(findings[key]["also"]) < 12:
-                        findings[key]["also"].append("%s %s %s: %s" % (cfg, c["name"], var["desc"], "; ".join(w)[:80]))
-                else:
-                    findings[key] = wit
+                raw.append((fn, var, w, st, wit))
+    bad_long = frozenset((fn, var["param"]) for fn, var, w, st, wit in raw if family(var["cls"]) == "name-long")
+    for fn, var, w, st, wit in raw:
+        key = finding_key(fn, var, w, st, F, claims, bad_long)
+        if key in findings:
+            findings[key].setdefault("also", [])
+            if len(findings[key]["also"]) < 12:
+                findings[key]["also"].append("%s %s %s: %s" % (wit["config"], wit["entry"], var["desc"], "; ".join(w)[:80]))
+        else:
+            findings[key] = wit
     ck.cov["traces_validated_against_impl"] += dyn["cases"]
 
     # ---- use after close (DESIGN.md section 6 row 11)
